@@ -104,6 +104,19 @@ CHECKS = {
             "realise completion orders TLC explored; TLC compares every key/value with the sequential result.",
             "completion order is logged, never used for the verdict; cause compared as 'a valid cause' (ties are legitimate)",
             "TLC-explored worker schedules realised on the real process pool; result equality decided by TLC", "§4 C15"),
+    "C13": ("model_checking",
+            "ControlLoopDef.tla is the loop of run_control.py as a deterministic event machine (initialize pass, initial "
+            "calculation, per level: level_reset pass, sweeps of is_converged/control_step in ascending order, evaluate_net, "
+            "max_iter check; finalize pass) plus the transcribed decision functions of DiscreteTapControl/ContinuousTapControl. "
+            "ControlLoop.tla drives it with an abstract plant and TLC explores every behaviour of every configuration (tap range, "
+            "fresh results, bounded calculations, convergence on return, termination). Every model configuration is run on the real "
+            "run_control with the real controller classes and a stub run= implementing the model's plant, the same structures run "
+            "on a real feeder with runpp through both entry points; every controller instance is wrapped and TLC folds the machine "
+            "over each recorded event trace: order, tap range, only not-converged errors, convergence of every in-service controller "
+            "on the final state (decided by the spec's own decision function from the logged voltage/tap), results equal a fresh power flow.",
+            "two controllers on 2W transformers (Discrete/Continuous tap, ConstControl); CharacteristicControl/trafo3w modelled, not "
+            "instantiated; decisions within 3 micro-pu of a band edge accepted either way on real power flows",
+            "TLC-explored loop model; recorded event traces of the real loop validated by folding the spec machine in TLC", "§4 C13"),
 }
 
 NOT_APPLICABLE = {
